@@ -30,6 +30,12 @@ func C16(r *Run) *core.Report {
 	c16R3(r, rep)
 	c16R4(r, rep)
 	c16R5(r, rep)
+	// R6 (32-bit layout only): the 64-bit words the lookups load atomically are 8-byte aligned - a misaligned one makes
+	// every lookup fault there (restated from C14.A7)
+	if r.P.GOARCH == "386" {
+		n6 := borrow(rep, C14(r), "C16.R6", "C14.A7")
+		rep.MinCount("C16.R6", "premise obligations (64-bit atomic operands aligned on 386)", n6, 2)
+	}
 	return rep
 }
 
